@@ -13,6 +13,7 @@ inductive Line
   | op (o : Op)
   | lockorder (edges : List (String × String))
   | steporder
+  | stress
 
 def parseEdges (s : String) : Option (List (String × String)) :=
   (splitComma s).mapM fun e =>
@@ -35,6 +36,9 @@ def parseLine : List String → Option Line
   | ["read-end", r] => do some (.op (.readEnd (← r.toNat?)))
   | ["lockorder", es] => do some (.lockorder (← parseEdges es))
   | ["steporder"] => some .steporder
+  | ["stress", seed, w, r, n] => do
+    let _ ← seed.toNat?; let _ ← w.toNat?; let _ ← r.toNat?; let _ ← n.toNat?
+    some .stress
   | _ => none
 
 def showPts (l : List (TS × Val)) : String :=
@@ -61,6 +65,20 @@ def parseAns (s : String) : Option Ans :=
   | ["pts", l] => (splitComma l).mapM parsePt |>.map .pts
   | _ => none
 
+/-- one event token of a stress history: `w,k,t,v,s,e` or `r,k,s,e,t=v;t=v` (`-` = no point) -/
+def parseStress (ans : String) : Option (List Spec.C39.WEv × List Spec.C39.REv) :=
+  match tokens ans with
+  | "hist" :: evs =>
+    evs.foldlM (fun (acc : List Spec.C39.WEv × List Spec.C39.REv) ev =>
+      match ev.splitOn "," with
+      | ["w", k, t, v, s, e] => do
+        some (⟨← k.toNat?, ← t.toInt?, ← v.toInt?, ← s.toNat?, ← e.toNat?⟩ :: acc.1, acc.2)
+      | ["r", k, s, e, pts] => do
+        let ps ← if pts = "-" then some [] else (pts.splitOn ";").mapM parsePt
+        some (acc.1, ⟨← k.toNat?, ← s.toNat?, ← e.toNat?, ps⟩ :: acc.2)
+      | _ => none) ([], [])
+  | _ => none
+
 def showStepOrder (f : List (String × List String)) : String :=
   " ".intercalate (f.map fun e => e.1 ++ "=" ++ ",".intercalate e.2)
 
@@ -69,6 +87,7 @@ def step (y : Sys) (toks : List String) : Sys × String :=
   | some (.op o) => let (y', a) := sysStep y o; (y', render a)
   | some (.lockorder es) => (y, "acyclic=" ++ boolStr (LockOrder.isAcyclic es))
   | some .steporder => (y, showStepOrder Spec.C39.expectedStepOrder)
+  | some .stress => (y, "*")       -- a free-running schedule: not predicted, judged by the oracle
   | none => (y, "bad-op")
 
 def opTag : Op → String
@@ -98,6 +117,13 @@ def oracle (obs : List (List String × String)) : Verdict :=
       let ok := a == showStepOrder Spec.C39.expectedStepOrder
       v.and { ok := ok, nontrivial := true, tags := ["steporder"],
               reason := if ok then "" else "step-order-changed:" ++ a.replace " " "_" }
+    | .stress =>
+      match parseStress a with
+      | some (ws, rs) =>
+        let ok := Spec.C39.stressOK ws rs
+        v.and { ok := ok, nontrivial := true, tags := ["stress", s!"stress-reads:{rs.length}"],
+                reason := if ok then "" else "stress-read-unexplained:" ++ s!"{ws.length}-writes-{rs.length}-reads" }
+      | none => v.and (Verdict.fail ("bad-observation:" ++ ((a.take 40).replace " " "_")))
     | .op _ => v) (Verdict.pass false)
   let ops := lines.filterMap fun (l, a) => match l with | .op o => some (o, a) | _ => none
   match ops.mapM (fun (o, a) => (parseAns a).map (o, ·)) with
